@@ -61,16 +61,25 @@ func genC04Script(seed uint32, large bool) c04Script {
 			ln = []int{0, 1, 5, 20, 60, 126, 130}[t.Draw(7)] + t.Draw(3)
 		}
 		var data []byte
+		jsonWS := ""
 		if sc.JSON {
 			// a JSON string document of total length ln (at least 2)
 			if ln < 2 {
 				ln = 2
 			}
-			data = make([]byte, ln)
+			// (optionally followed by white space, as json.Encoder and many senders do:
+			// the value then ends before the message does)
+			ws := []string{"", "", "\n", " \n\t \n", "      "}[t.Draw(5)]
+			if ln < 2+len(ws) {
+				ws = ""
+			}
+			ln -= len(ws)
+			data = make([]byte, ln, ln+len(ws))
 			data[0], data[ln-1] = '"', '"'
 			for j := 1; j < ln-1; j++ {
 				data[j] = 'a' + byte((j*7+i+int(seed))%26)
 			}
+			jsonWS = ws
 			if large && ln > 100 {
 				// make it less trivially compressible
 				rng := simrt.NewLocalRNG(uint64(seed) + uint64(i))
@@ -78,6 +87,7 @@ func genC04Script(seed uint32, large bool) c04Script {
 					data[j] = 'a' + byte(rng.Intn(26))
 				}
 			}
+			data = append(data, jsonWS...)
 		} else {
 			data = Payload{Kind: []int{0, 2, 3}[t.Draw(3)], Len: ln, Seed: seed + uint32(i)}.Bytes()
 		}
@@ -325,7 +335,13 @@ func runC04(r *Run) {
 					rerr = e
 					return
 				}
-				msgs = append(msgs, []byte(`"`+v+`"`))
+				doc := []byte(`"` + v + `"`)
+				if len(msgs) < len(sc.Msgs) {
+					// (white space after the value is not part of what wsjson returns)
+					exp := sc.Msgs[len(msgs)]
+					doc = append(doc, exp[bytes.LastIndexByte(exp, '"')+1:]...)
+				}
+				msgs = append(msgs, doc)
 			}
 		}
 	})
